@@ -17,6 +17,9 @@ CHECKS = {
  "C07": dict(cat="proof", ref="DESIGN.md §5 C07",
    text="Coq theorems (22) over a faithful model of the FormatLines scanner, track_errors and the exit-code expressions: the reported set equals a declarative set of offending lines (scan_exact, both directions), 1-based sorted line numbers, selected-only / never-skipped, exact characterisation of the two error options, a trailing blank forces exit 1; for every character stream, width and option setting. Tied to the code by a seeded correspondence run through hooks (format_lines on a buffer, FormatReport accessor, CharClasses export); the property's text is re-stated independently in python and evaluated on the implementation's reports.",
    note="Trusted: Coq kernel; hand-written model; the (kind,char) stream is the implementation's CharClasses output (C03 covers classification); rendering of the report (format_report_formatter) not covered here; deviations of the code from the plain-English property that the proof exposed are listed as _gap lemmas in coq/C07/Props.v and DESIGN.md."),
+ "C10": dict(cat="proof", ref="DESIGN.md §5 C10",
+   text="Coq theorems (21) over a rose-tree model of rustfmt's UseTree pipeline (normalize, flatten, merge, merge_rest, merge_use_trees_inner, nest_trailing_self, granularity regrouping, group_imports, run segmentation): the set of denoted imports (path, alias, visibility class, attributes) is preserved by every step and by the whole pipeline for all five granularities and every group/reorder setting, outside explicit decidable bad classes, each of which has a refutation witness; never merges across visibility/attributes/comments; grouping is a permutation; runs never cross a non-import item. For every input, unbounded depth. Tied to the code by a seeded correspondence run (regrouped trees and written groups compared structurally) through hook verif_hooks::imports, and end to end: the emitted text is parsed again and its leaves compared with the input's.",
+   note="Trusted: Coq kernel; hand-written model; the denotation `leaves` as the meaning of 'what is imported'; slice::sort modelled by a stable insertion sort; correspondence uses ASCII names and style edition <= 2021 for the ordering (2024 ordering only end to end). Known finding classes: DupAcrossVisibility, DupAcrossAttrs, NestedEmptyList, AliasClash, CommentedEmptyNestedList (all genuine, text-changing, not repaired)."),
  "C11": dict(cat="proof", ref="DESIGN.md §5 C11",
    text="Coq theorems (28): version_sort and compare_items are total preorders for all identifiers (no length bound); a stable sort by a total preorder is a sorted permutation, unique and independent of the algorithm, and independent of the input order whenever Equal implies identical; Equal classes of version_sort characterised (equal chunk lists). Tied to the code by a correspondence run (comparison matrices, sort_by results, compare_items on parsed items) through hooks; the preorder laws and permutation-invariance are also evaluated on the implementation end to end (every permutation of generated groups is formatted).",
    note="Trusted: Coq kernel, hand-written model of sort.rs/compare_items (usize = 64 bit), slice::sort_by is a correct stable sort given a total preorder. Ord for UseTree (imports.rs) is not modelled: import ordering is covered only by the end-to-end permutation oracle. Group boundaries (blank lines, macro_use, skip) not covered by this check. Known finding class: identifiers with a digit run >= 2^64."),
